@@ -336,6 +336,43 @@ var persistFuncs = map[string]bool{
 
 const vcrashPath = vrtPath + "/vcrash"
 
+// persistVars: package-level variables initialised with one of the functions above (`var chmodFunc = os.Chmod`):
+// a call through such a variable is a persistence operation too.
+var persistVars = map[types.Object]string{}
+
+func collectPersistVars(files []*ast.File, info *types.Info) {
+	persistVars = map[types.Object]string{}
+	for _, f := range files {
+		for _, d := range f.Decls {
+			gd, ok := d.(*ast.GenDecl)
+			if !ok || gd.Tok != token.VAR {
+				continue
+			}
+			for _, sp := range gd.Specs {
+				vs, ok := sp.(*ast.ValueSpec)
+				if !ok || len(vs.Names) != 1 || len(vs.Values) != 1 {
+					continue
+				}
+				var id *ast.Ident
+				switch v := vs.Values[0].(type) {
+				case *ast.SelectorExpr:
+					id = v.Sel
+				case *ast.Ident:
+					id = v
+				}
+				if id == nil {
+					continue
+				}
+				if fn, ok := info.Uses[id].(*types.Func); ok && persistFuncs[fn.FullName()] {
+					if obj := info.Defs[vs.Names[0]]; obj != nil {
+						persistVars[obj] = fn.FullName()
+					}
+				}
+			}
+		}
+	}
+}
+
 func (r *rw) calleeName(c *ast.CallExpr) string {
 	var id *ast.Ident
 	switch f := c.Fun.(type) {
@@ -348,6 +385,9 @@ func (r *rw) calleeName(c *ast.CallExpr) string {
 	}
 	if fn, ok := r.info.Uses[id].(*types.Func); ok {
 		return fn.FullName()
+	}
+	if name, ok := persistVars[r.info.Uses[id]]; ok {
+		return name
 	}
 	return ""
 }
@@ -541,6 +581,9 @@ func main() {
 			if c[:dot] == p.PkgPath {
 				constDone[c] += rewriteConst(p.Syntax, c[dot+1:eq], c[eq+1:])
 			}
+		}
+		if crash {
+			collectPersistVars(p.Syntax, p.TypesInfo)
 		}
 		for i, f := range p.Syntax {
 			r := &rw{fset: p.Fset, info: p.TypesInfo}
